@@ -174,6 +174,13 @@ hwloc_synthetic_process_indexes(struct hwloc_synthetic_backend_data_s *data,
 	  free(loops);
 	  goto out_with_array;
 	}
+	if (nb > total / nbs) {
+	  /* too many objects, and nbs*nb could overflow */
+	  if (verbose)
+	    fprintf(stderr, "Invalid index interleaving total width above %lu at '%s'\n", total, tmp);
+	  free(loops);
+	  goto out_with_array;
+	}
 	loops[cur_loop].step = step;
 	loops[cur_loop].nb = nb;
 	if (step < minstep)
@@ -255,10 +262,15 @@ hwloc_synthetic_process_indexes(struct hwloc_synthetic_backend_data_s *data,
 	step = total / data->level[mydepth].totalwidth; /* number of objects below us */
 	nb = data->level[mydepth].totalwidth / data->level[prevdepth].totalwidth; /* number of us within parent */
 
+	if (!step || !nb || nb > total / nbs) {
+	  /* the loop type is a level below the indexed level */
+	  if (verbose)
+	    fprintf(stderr, "Invalid interleaving loop type below the indexed level in synthetic index '%s'\n", attr);
+	  free(loops);
+	  goto out_with_array;
+	}
 	loops[cur_loop].step = step;
 	loops[cur_loop].nb = nb;
-	assert(nb);
-	assert(step);
 	if (step < minstep)
 	  minstep = step;
 	nbs *= nb;
@@ -637,6 +649,12 @@ hwloc_backend_synthetic_init(struct hwloc_synthetic_backend_data_s *data,
       goto error;
     }
 
+    if (item > ULONG_MAX / totalarity) {
+      if (verbose)
+	fprintf(stderr,"Too many objects in synthetic level at '%s'\n", pos);
+      errno = EINVAL;
+      goto error;
+    }
     totalarity *= item;
     data->level[count].totalwidth = totalarity;
     data->level[count].indexes.string = NULL;
